@@ -618,6 +618,45 @@ func genSegCrash(c *ctx, emit func(string)) {
 	for i := 0; i < nfail; i++ {
 		emit(genFailChain(r, c, i))
 	}
+	// the SEALING batch is torn: everything of it reaches the disk (entry frames, index frame)
+	// except one chunk -- its commit frame, the index frame header, or one chunk of the index
+	// array.  The batch was never acknowledged: recovery must return the tail unsealed without
+	// it (an index frame not covered by a verified commit frame means nothing).  Then the same
+	// indexes are appended again, a restart, reads.
+	for k := 0; k < 9; k++ {
+		limit := 256
+		base := uint64(1 + r.Intn(1000))
+		ops := []string{fmt.Sprintf("seg %x %x 1 %x %x", base, r.Uint64()>>uint(r.Intn(64)), limit, limit)}
+		pre := []int{8 + 8*r.Intn(5)}
+		ops = append(ops, batchOf(r, base, pre))
+		pos := 32 + frameLen(pre[0]) + 8
+		big := []int{40, 48, 56, 40 + 8*r.Intn(4), 48}[:4+k%2] // > 256 bytes of frames: seals
+		ops = append(ops, batchOf(r, base+1, big), "L", "Q")
+		end := pos
+		for _, n := range big {
+			end += frameLen(n)
+		}
+		idxOff := end                          // index frame header
+		end += frameLen(4 * (1 + len(big)))    // index frame: one slot per entry of the segment
+		commitChunk := end / 8                 // the commit frame follows
+		m := allOnes(limit + 512)
+		switch k % 3 {
+		case 0:
+			m.SetBit(m, commitChunk, 0)
+		case 1:
+			m.SetBit(m, idxOff/8, 0)
+		default:
+			m.SetBit(m, idxOff/8+1, 0)
+		}
+		ops = append(ops, "C "+m.Text(16), "L", "Q")
+		for idx := base; idx < base+uint64(len(big))+2; idx++ {
+			ops = append(ops, fmt.Sprintf("G %x", idx))
+		}
+		ops = append(ops, "F", batchOf(r, base+1, []int{16, 24}), "L", "Q", "R", "L", "Q",
+			fmt.Sprintf("G %x", base), fmt.Sprintf("G %x", base+1), fmt.Sprintf("G %x", base+2), "F", "D 0 0")
+		emit(strings.Join(ops, " "))
+		c.stat("torn_sealing_batch")
+	}
 	// a segment of more than 64 KiB filled by equal batches whose sealing batch grows the file
 	// past its preallocation: the file ENDS right behind the sealing commit frame, on a multiple
 	// of the batch size (implementation only: recovery must not read anything behind the end)
